@@ -405,7 +405,7 @@ func runJob(sh *shm, w, ji int, row *Row, rs *rowSpace, lo, hi int, only string)
 			}
 		default:
 			res.Rejected++
-			if name == "valid" && !in.NoAccept {
+			if name == "valid" && !in.NoAccept && !row.NoAccept {
 				res.BaseBad = append(res.BaseBad, fmt.Sprintf("%s: %v", caseID, cerr))
 			}
 		}
@@ -476,6 +476,7 @@ type sink interface {
 	RequireCounter(string, int64)
 	Cap(string)
 	NotExhaustive(string)
+	Vacuous(string)
 }
 
 // Recorder is a sink that keeps violations in memory (used by the kit self-test: the supervisor is
@@ -500,6 +501,7 @@ func (m *Recorder) Sample(interface{})            {}
 func (m *Recorder) RequireCounter(string, int64)  {}
 func (m *Recorder) Cap(string)                    {}
 func (m *Recorder) NotExhaustive(string)          {}
+func (m *Recorder) Vacuous(string)                {}
 func (m *Recorder) Violation(key, caseID, what string, replay interface{}) {
 	if _, ok := m.Viol[key]; !ok {
 		m.Viol[key] = caseID
@@ -576,6 +578,7 @@ func supervise(t *testing.T, r sink, unit, workerTest string, rows []*Row, watch
 			t.Fatal(err)
 		}
 		cmd.Stdout, cmd.Stderr = ef, ef
+		cmd.SysProcAttr = &syscall.SysProcAttr{Pdeathsig: syscall.SIGKILL} // no orphans if the supervisor is killed (test timeout)
 		atomic.StoreUint64(sh.slot(w, 0), stIdle)
 		if err := cmd.Start(); err != nil {
 			t.Fatalf("start worker: %v", err)
@@ -766,6 +769,18 @@ func supervise(t *testing.T, r sink, unit, workerTest string, rows []*Row, watch
 		}
 		r.Outcome("fatal:" + fr.class)
 	}
+	// Rows without a known valid encoding (discovered entry points, driven on a zero-value receiver): if EVERY
+	// executed case panicked, nothing depends on the input - the receiver or the fixed arguments are not usable
+	// as constructed. That is not evidence against the entry point: drop it and say so (vacuity, not alarm).
+	undrivable := map[string]bool{}
+	for _, row := range rows {
+		if a := agg[row.Name]; row.NoAccept && a != nil && a.evals > 0 && a.pan == a.evals {
+			undrivable[row.Name] = true
+			if !r.Replaying() {
+				r.Vacuous(fmt.Sprintf("%s: all %d generic cases panic, i.e. independently of the input (zero-value receiver not usable?); the entry point needs a hand-written row", row.Name, a.evals))
+			}
+		}
+	}
 	keys := make([]string, 0, len(best))
 	for k := range best {
 		keys = append(keys, k)
@@ -773,6 +788,9 @@ func supervise(t *testing.T, r sink, unit, workerTest string, rows []*Row, watch
 	sort.Strings(keys)
 	for _, k := range keys {
 		v := best[k]
+		if parts := strings.SplitN(v.Key, "|", 3); len(parts) == 3 && undrivable[parts[1]] {
+			continue
+		}
 		r.Violation(v.Key, v.Case, v.What, v.Replay)
 	}
 	// ---- coverage
@@ -865,7 +883,7 @@ func supervise(t *testing.T, r sink, unit, workerTest string, rows []*Row, watch
 func rowsMustAccept(rows []*Row) int {
 	n := 0
 	for _, r := range rows {
-		if r.inst == nil || !r.inst.NoAccept {
+		if !r.NoAccept && (r.inst == nil || !r.inst.NoAccept) {
 			n++
 		}
 	}
